@@ -16,6 +16,11 @@ definitions:
   `gen_reverse_values`, `gen_reverse_transform_supported` (3), `gen_edge_*` (4), and `gen_MST_original_domain`
   (the three helpers as `MST` threads them, with `measure` / `select` / estimation / `synthetic_data` opaque).
 
+Scope (audit 2): "the returned data conforms to the input's original domain" is proved HERE for MST only — the one mechanism that
+re-codes the domain.  For the other three mechanisms (AIM, MWEM+PGM, Adaptive Grid) there is no re-coding: the returned data
+is `synthetic_data` of a model built over the input's domain, and conformance is `gen_synth_in_domain` (C11G, composed end to end in C11E: every generated record
+lies in the model's domain); no C06D theorem is stated for them.
+
 Exceptions are collapsed to values (`KeyError` → default, `IndexError`/`NaN` → the invalid cell `none`); the theorems
 conclude that every cell of the result is a valid code, so on the inputs they cover none of these occurs.
 -/
